@@ -210,3 +210,57 @@ func genOps(t *rapid.T, m opMix, nKeys int, cfg Config, minOps, maxOps int, bigV
 	}
 	return ops
 }
+
+// genIndexGCFocused builds a history aimed at the index collector: several
+// buckets with one or two keys each, index files that hold a handful of
+// record lists, and rounds of [rewrite a drawn subset of the buckets, flush,
+// index GC], with occasional reopen by rescan. Superseded record lists then
+// sit between live ones, get marked in different cycles and are merged later.
+func genIndexGCFocused(t *rapid.T, withPrimaryGC bool) SeqCase {
+	var c SeqCase
+	c.Cfg = Config{Primary: store.MultihashPrimary, Bits: 8, FileCache: []int{0, 2, 512}[rapid.IntRange(0, 2).Draw(t, "filecache")]}
+	if !withPrimaryGC && weighted(t, "cid", []int{3, 1}) == 1 {
+		c.Cfg.Primary = store.CIDPrimary
+	}
+	c.Cfg.IdxSize = []uint32{48, 64, 100, 160, 256, 400}[rapid.IntRange(0, 5).Draw(t, "idxsize")]
+	c.Cfg.PrimSize = []uint32{64, 256, 1024, 0}[rapid.IntRange(0, 3).Draw(t, "primsize")]
+	nb := rapid.IntRange(3, 7).Draw(t, "buckets")
+	base := rapid.SliceOfN(rapid.Byte(), 5, 5).Draw(t, "base")
+	for b := 0; b < nb; b++ {
+		d := append([]byte{}, base...)
+		d[0] = byte(int(base[0]) + b*17)
+		c.Keys = append(c.Keys, KeySpec{Digest: d, Code: 0x00, Codec: cid.Raw})
+		if weighted(t, "second", []int{2, 1}) == 1 {
+			d2 := append([]byte{}, d...)
+			d2[4] ^= 0x01
+			c.Keys = append(c.Keys, KeySpec{Digest: d2, Code: 0x00, Codec: cid.Raw})
+		}
+	}
+	rounds := rapid.IntRange(3, 12).Draw(t, "rounds")
+	for r := 0; r < rounds; r++ {
+		n := rapid.IntRange(1, 3).Draw(t, "nwrites")
+		for i := 0; i < n; i++ {
+			k := rapid.IntRange(0, len(c.Keys)-1).Draw(t, "key")
+			if weighted(t, "rm", []int{6, 1}) == 1 {
+				c.Ops = append(c.Ops, Op{K: opRemove, Key: k})
+			} else {
+				c.Ops = append(c.Ops, Op{K: opPut, Key: k, VLen: rapid.IntRange(1, 12).Draw(t, "vlen")})
+			}
+		}
+		c.Ops = append(c.Ops, Op{K: opFlush})
+		switch weighted(t, "after", []int{6, 1, 1, 1}) {
+		case 0:
+			c.Ops = append(c.Ops, Op{K: opIGC, A: rapid.IntRange(0, 1).Draw(t, "scanfree")})
+		case 1:
+			c.Ops = append(c.Ops, Op{K: opReopen, A: 1})
+		case 2:
+			if withPrimaryGC {
+				c.Ops = append(c.Ops, Op{K: opPGC, A: 50})
+			}
+		}
+		if weighted(t, "check", []int{3, 1}) == 1 {
+			c.Ops = append(c.Ops, Op{K: opCheckAll})
+		}
+	}
+	return c
+}
